@@ -127,6 +127,23 @@ RULES = [
 
 # rules whose absence is tolerated (instrumentation for a single property): the
 # property that needs them reports INCONCLUSIVE itself.
+# Concretise mode: the small byte helpers keep their original, non-generic text; generic
+# wrappers of the same name call them on the concrete text or, for a symbolic text, on its
+# lexicographically smallest instance under the current path condition.  Used when the
+# helpers cannot be made generic (a rule below does not match, or the generic build fails).
+GENERIC_HELPER_RULES = ["R2", "R3", "R8", "R8b", "R8c", "R9"]
+CONCRETISE_RULES = [
+    ("H2", "vm.rs",
+     "fn codepoint_len_at(s: &str, ix: usize) -> usize {",
+     "fn codepoint_len_at<T: Text + ?Sized>(s: &T, ix: usize) -> usize {\n    match s.as_str() {\n        Some(x) => codepoint_len_at_orig(x, ix),\n        None => codepoint_len_at_orig(&s.representative(), ix),\n    }\n}\n\nfn codepoint_len_at_orig(s: &str, ix: usize) -> usize {"),
+    ("H3", "vm.rs",
+     "fn matches_literal(s: &str, ix: usize, end: usize, literal: &str) -> bool {",
+     "fn matches_literal<T: Text + ?Sized, L: LitLike + ?Sized>(s: &T, ix: usize, end: usize, literal: &L) -> bool\nwhere\n    T::Bytes: PartialEq<L::LBytes>,\n{\n    match (s.as_str(), literal.lit_str()) {\n        (Some(a), Some(l)) => matches_literal_orig(a, ix, end, l),\n        _ => end <= s.len() && &s.as_bytes()[ix..end] == literal.as_bytes(),\n    }\n}\n\n#[inline]\nfn matches_literal_orig(s: &str, ix: usize, end: usize, literal: &str) -> bool {"),
+    ("H8", "lib.rs",
+     "fn prev_codepoint_ix(s: &str, mut ix: usize) -> usize {",
+     "fn prev_codepoint_ix<T: crate::symtext::Text + ?Sized>(s: &T, ix: usize) -> usize {\n    match s.as_str() {\n        Some(x) => prev_codepoint_ix_orig(x, ix),\n        None => prev_codepoint_ix_orig(&s.representative(), ix),\n    }\n}\n\nfn prev_codepoint_ix_orig(s: &str, mut ix: usize) -> usize {"),
+]
+
 # (rule that may be missing, rule to skip as well, replacement rule applied instead)
 FALLBACKS = {
     "R8b": ("R8c", ("R8c-fallback", "lib.rs",
@@ -163,8 +180,19 @@ def main():
                 files[f] = fh.read()
     applied, missing = [], []
     rules = list(RULES)
+    concretise = "--concretise" in sys.argv
+    if not concretise:
+        for rid in GENERIC_HELPER_RULES:
+            r = next(x for x in rules if x[0] == rid)
+            if files.get(r[1], "").count(r[2]) != 1:
+                concretise = True
+                missing.append(rid + " (helpers concretised)")
+    if concretise:
+        rules = [x for x in rules if x[0] not in GENERIC_HELPER_RULES] + CONCRETISE_RULES
     # fallbacks: decided before anything is rewritten
     for rid, (also_skip, repl) in FALLBACKS.items():
+        if concretise:
+            break
         r = next(x for x in rules if x[0] == rid)
         if files.get(r[1], "").count(r[2]) != 1:
             rules = [x for x in rules if x[0] not in (rid, also_skip)] + [repl]
@@ -215,6 +243,7 @@ def main():
     shutil.copytree(os.path.join(REPO, "tests"), tdst)
     meta = {
         "rules_applied": applied,
+        "helpers_concretised": concretise,
         "rules_missing_optional": missing,
         "repo_src_sha256": tree_hash(os.path.join(REPO, "src")),
         "overlay_sha256": tree_hash(os.path.join(HERE, "overlay")),
